@@ -167,12 +167,15 @@ func FetchV2(ctx context.Context, st storage.Storer, req *FetchRequest, round Fe
 	}
 	if req.Depth > 0 {
 		baseArgs.Deepen = req.Depth
-		shallows, err := st.Shallow()
-		if err != nil {
-			return err
-		}
-		baseArgs.Shallows = shallows
 	}
+
+	// A shallow repository always tells the server where its history ends,
+	// whether or not this fetch deepens it (see NegotiatePack).
+	shallows, err := st.Shallow()
+	if err != nil {
+		return err
+	}
+	baseArgs.Shallows = shallows
 
 	// Pop haves from a private copy so the caller's slice is left untouched.
 	remaining := append([]plumbing.Hash(nil), req.Haves...)
